@@ -8,6 +8,7 @@ package vrange
 import (
 	"fmt"
 	"sort"
+	"sync/atomic"
 )
 
 // MaxFull is the largest map size whose every permutation is an alternative.
@@ -54,7 +55,7 @@ func Keys[M ~map[K]V, K comparable, V any](m M) []K {
 		return ks
 	}
 	sortKeys(ks)
-	Points++
+	atomic.AddInt64(&Points, 1)
 	if Chooser == nil {
 		if Reverse {
 			for i, j := 0, n-1; i < j; i, j = i+1, j-1 {
